@@ -247,4 +247,51 @@ def C11(tier, seed):
     }
 
 
-REGISTRY = {"C11": C11, "C20": C20, "C09": C09, "C19": C19, "C18": C18, "C13": C13, "C07": C07, "C14": C14, "C15": C15}
+def prop_stage(grp, nmax, req, levels="sel", shards=8, big=6):
+    return Stage(grp, ("Gen_Proportion", "Gen_Proportion.cfg"), ("Trace_Proportion", "Trace_Proportion.cfg"),
+                 env={"GRP": grp, "PROP_N": nmax, "PROP_LEVELS": levels, "PROP_BIG": big}, required=req, shards=shards)
+
+
+C02_REQ = ["C02.domain", "C02.no_panic", "C02.shape", "C02.in01", "C02.level_echo", "C02.root_lo", "C02.root_hi",
+           "C02.around_estimate", "C02.front_end", "C02.negative_z", "C02.zero_z", "C02.method.wilson", "C02.method.wald",
+           "C02.kind.two", "C02.kind.upper", "C02.kind.lower"] + \
+          ["C02.front_end." + f for f in ("ci", "ci_wilson_ratio", "ci_true", "ci_if", "stats_new", "stats_from_iter", "stats_extend_if", "stats_add")] + \
+          ["C02.domain.%s.%s" % (d, m) for d in ("ok", "TooFewSuccesses", "TooFewFailures", "InvalidSuccesses") for m in ("wilson", "wald")]
+TABLES_MC = [("MC_Tables", "MC_Tables.cfg", {}, 1), ("MC_BigNum", "MC_BigNum.cfg", {}, 1)]
+NUM_TRUST = TLC_TRUST + ["the mpmath-generated quantile tables (spec/tables; axioms checked by MC_Tables in exact arithmetic)",
+                         "the BigInteger accelerators of the exact kernel (checked against the TLA+ definitions by MC_BigNum)"]
+
+
+def C02(tier, seed):
+    st = prop_stage("row", 40 if tier == "quick" else 130, C02_REQ, levels="sel" if tier == "quick" else "all")
+    st.mc = list(TABLES_MC)
+    return {
+        "stages": [st],
+        "exhaustive": True,
+        "rule": "every (n, k) with 0 <= k <= n+1 for n <= 40 (130 thorough) x 9 (17) levels x 3 kinds x {Wilson, Wald}, plus 6 large "
+                "populations up to 10^7 with boundary and TLC-drawn k; at two-sided/one-sided 0.95 every (n, k) additionally through 8 front-ends. "
+                "Each returned bound is accepted only if the score (Wald) polynomial changes sign within 2^-46 of it for every z^2 of the "
+                "reference enclosure (exact dyadic arithmetic); outcome class must be exactly the documented domain.",
+        "assumptions": NUM_TRUST,
+    }
+
+
+def C17(tier, seed):
+    n = 40 if tier == "quick" else 130
+    lv = "sel" if tier == "quick" else "all"
+    row = prop_stage("row", n, ["C17.monotone_in_k", "C17.mirror", "C17.mirror.two", "C17.mirror.lower", "C17.in01", "C17.midpoint"], levels=lv)
+    row.mc = list(TABLES_MC)
+    return {
+        "stages": [row,
+                   prop_stage("mult", n, ["C17.shrinks_with_n"]),
+                   prop_stage("levels", n, ["C17.wider_with_level"])],
+        "exhaustive": True,
+        "rule": "relations over the recorded table (n, k) -> interval: for every n <= 40 (130) and confidence, consecutive k (monotone), "
+                "k vs n-k within two-sided rows and between upper and lower rows (mirror, 2^-50), midpoint between k/n and 1/2; "
+                "multipliers m in {1,2,3,10,100} (strictly narrower two-sided intervals, one-sided bound moves towards k/n); all 17 levels "
+                "ascending (nested, strictly wider two-sided). Wilson and Wald.",
+        "assumptions": NUM_TRUST,
+    }
+
+
+REGISTRY = {"C02": C02, "C17": C17, "C11": C11, "C20": C20, "C09": C09, "C19": C19, "C18": C18, "C13": C13, "C07": C07, "C14": C14, "C15": C15}
